@@ -23,15 +23,18 @@ RULE = (
     "Hypothesis: tiled GeoBoxes from vf.strategies.geoboxes (exact/general family, north-up, mirrored, rotated, "
     "sheared; sides 1..40) with regular tiles (incl. 1-px tiles, one tile, tile larger than raster) and variable "
     "tiles (incl. 1-px chunks), <=10 tiles per axis (<=6 for graphs). Queries are drawn in pixel coordinates on a "
-    "1/16-px lattice biased to tile borders (box, triangle, L-shape, box with hole; inside, straddling each edge, "
-    "covering, touching, outside near/far up to 100x the raster) and mapped to the world (same CRS, any spelling) or "
-    "to another CRS label by an independent pyproj transformer (rasters placed inside the common valid lon/lat area). "
-    "Pairs for grid_intersect: same CRS with relative pixel map = scale (1,2,3,1/2,1/4,1.5,2.5,1/3,0.3,7/3,0.7; either "
-    "sign) + translation (aligned, integer, sub-pixel, touching, gap 1 px..100x raster), same CRS with relative "
-    "rotation/shear, and different CRS labels (overlapping, adjacent, far apart). Oracle: brute force over ALL tiles "
-    "with shapely / exact rational interval arithmetic on the integer tile rectangles. Non-trivial: the query (or the "
-    "source raster) overlaps some but not all tiles, or the rasters are decidedly disjoint (emptiness clause); distinct "
-    "key = placement/shape/relation classes + box class + tile layout. locate(): exhaustive enumeration of layouts."
+    "1/16-px lattice biased to tile borders (box, triangle, L-shape, box with hole, two-part multipolygon; inside, "
+    "straddling each edge, covering, touching, outside near/far up to 100x the raster) and mapped to the world (same "
+    "CRS, any spelling) or to another CRS label by an independent pyproj transformer (rasters <= 250 km across, "
+    "pixels <= 25 km, centred inside the common valid lon/lat area of both labels). Pairs for grid_intersect: same CRS "
+    "with relative pixel map = scale (1,2,3,1/2,1/4,1.5,2.5,1/3,0.3,7/3,0.7; either sign) + translation (aligned, "
+    "integer, sub-pixel incl. 0.0005/0.002 px around the snap tolerance, touching, gap 0.5 px..100x raster), same CRS "
+    "with relative rotation/shear, and different CRS labels (overlapping, adjacent, >= 100 px apart). Oracle: brute "
+    "force over ALL tiles with shapely / exact-rational interval arithmetic on the integer tile rectangles. "
+    "Non-trivial: the query (or the source raster) overlaps some but not all tiles, or the rasters are decidedly "
+    "disjoint (emptiness clause); distinct key = placement/shape/relation classes + box class + tile layout (query "
+    "coordinates are not part of the key). locate(): enumeration of all regular layouts N<=12 (quick: a third of N<=8) "
+    "and all variable layouts N<=7 (quick N<=5) on both axes, every pixel."
 )
 ASSUMPTIONS = [
     "tile footprint = image of the integer pixel rectangle of the tile under the GeoBox affine (tile layout recomputed here)",
